@@ -48,6 +48,7 @@ Definition obs_of_out (r : cli_out) : obs :=
   match r with
   | CUsage2 => quiet 2%N
   | CHelp0 => quiet 0%N
+  | CNotModelled => quiet 255%N
   | COut (Failed d) => {| o_exit := 1; o_msg := true; o_diag := Some d; o_nothing := false;
                           o_files := []; o_listed := []; o_stray := false |}
   | COut (Done files listed) => {| o_exit := 0; o_msg := false; o_diag := None; o_nothing := is_nil files;
@@ -94,7 +95,11 @@ Definition outside (c : subcmd) (args : list string) (p : pkg) : bool :=
 (* 0 = agree; 1 = model and implementation differ but the property holds on the
    observation; 2 = the property fails on the observation (and the case is not
    an instance of an open finding reproduced exactly as the model predicts) *)
+Definition not_modelled (k : case) : bool :=
+  match shoot_cli id_oracle (c_cmd k) (c_args k) (c_pkg k) with CNotModelled => true | _ => false end.
+
 Definition verdict (k : case) : N :=
+  if not_modelled k then 0%N else       (* `map -to`: outside the model; the harness never generates it and reports the count (class 7) *)
   let agree := obs_eqb (model_obs (c_cmd k) (c_args k) (c_pkg k)) (c_obs k) in
   if Pb (c_cmd k) (c_args k) (c_pkg k) (c_obs k) then (if agree then 0%N else 1%N)
   else if agree && outside (c_cmd k) (c_args k) (c_pkg k) then 0%N else 2%N.
@@ -112,6 +117,7 @@ Definition mismatches := mismatches_from 0%N.
    0 inside the theorems' guard; 2, 3 the open finding classes; 8 the command
    line is rejected by flag parsing; 9 outside the grammar *)
 Definition case_class (k : case) : N :=
+  if not_modelled k then 7%N else
   match parse_common (c_cmd k) (c_args k) with
   | POk fl _ =>
       if negb (wf_pkgb (c_pkg k)) then 9%N
